@@ -9,7 +9,7 @@ import sys
 kinds=Counter(); shown=0; nm=0
 for seed in range(int(sys.argv[1])):
     ch=Choices(seed)
-    g=Gen(ch,{"macros":0.2,"on_error":0.4,"i18n":0.25,"code":0.3,"mutlit":0.3}); tmpl=g.template()
+    g=Gen(ch,{"macros":0.2,"on_error":0.4,"i18n":0.25,"code":0.3,"mutlit":0.3,"twins":0.3}); tmpl=g.template()
     src,occ=serialise(tmpl['tree'])
     if 'i18n:translate' in src: nm+=1
     try: t=PageTemplate(src)
